@@ -957,7 +957,39 @@ class Interp:
     def x_ConstBlock(self, e, env, fr):
         return (mk("unknown", "constblock"), env)
 
+    def unroll_concrete_loop(self, e, env, fr, limit=64):
+        """`while` / `loop` whose exit test is decided by concrete values in every iteration (a counter over a constant range):
+        executed iteration by iteration.  Returns the exit environment, or None (with every recorded fact rolled back) when an
+        iteration's exit test is not concrete, the bound is exceeded, or the body returns / continues."""
+        o = fr.out
+        marks = (len(o.effects), len(o.panics), len(o.unmodelled), len(o.calls), len(fr.rets))
+        cur = dict(env)
+        ok = False
+        for _ in range(limit):
+            fr.loops.append({"brk": [], "cont": []})
+            try:
+                res = self.block(e["body"], dict(cur), fr)
+            finally:
+                lp = fr.loops.pop()
+            if len(fr.rets) != marks[4] or lp["cont"]:
+                break
+            if res is None and len(lp["brk"]) == 1 and lp["brk"][0].get("$pc") == cur.get("$pc"):
+                cur = lp["brk"][0]
+                ok = True
+                break
+            if res is not None and not lp["brk"]:
+                cur = res[1]
+                continue
+            break
+        if not ok:
+            del o.effects[marks[0]:], o.panics[marks[1]:], o.unmodelled[marks[2]:], o.calls[marks[3]:], fr.rets[marks[4]:]
+            return None
+        return cur
+
     def x_Loop(self, e, env, fr):
+        done = self.unroll_concrete_loop(e, env, fr)
+        if done is not None:
+            return (UNIT, done)
         # `loop`/`while`: not summarised; havoc everything assigned inside
         self.note(fr, "unmodelled loop (%s)" % e.get("src"), e)
         env = dict(env)
